@@ -308,7 +308,7 @@ func getterField(f *ssa.Function) (string, bool) {
 		return "", false
 	}
 	ret, ok := b.Instrs[2].(*ssa.Return)
-	if !ok || len(ret.Results) != 1 || ret.Results[0] != ld {
+	if !ok || len(ret.Results) != 1 || RetVal(ret, 0) != ld {
 		return "", false
 	}
 	return FieldName(fa.X.Type(), fa.Field), true
